@@ -211,7 +211,10 @@ def replay_transition(t: dict) -> dict:
     U = Universe()
     out = {"c08": [], "c09": [], "c06": [], "drift": []}
     last = None
+    failed_before = False
     for c in t["h"]:
+        if last is not None and last[0] == "error":
+            failed_before = True   # partial effects of a failing call are not part of any verdict
         last = U.call(c)
     c = t["h"][-1]
     g = U.graph()
@@ -230,7 +233,7 @@ def replay_transition(t: dict) -> dict:
     if not graph_ok:
         what = {"nodes": [g["nodes"], t["nodes"]], "links": [g["links"], t["links"]], "orig": [g["orig"], t["orig"]],
                 "dest": [g["dest"], t["dest"]]}
-        if exp_res[0] == "error" or last[0] == "error":
+        if exp_res[0] == "error" or last[0] == "error" or failed_before:
             out["drift"].append(["graph after a failing call differs from the model's partial effects", what])
         else:
             out["c09"].append(["graph differs from the described graph", what])
